@@ -9,6 +9,7 @@
 //!     documents are decoded in a child process (an allocation failure aborts).
 use crate::alloc;
 use crate::common::*;
+use crate::fitsx;
 use crate::dispatch;
 use crate::iters::*;
 use crate::st::*;
@@ -500,6 +501,13 @@ pub fn run(ctx: &Ctx) -> Report {
   for _ in 0..n_text {
     text_totality(&mut rep, &mut rng);
   }
+  // header programs: FITS documents assembled card by card, through from_fits_ivoa in-process beside
+  // the byte-level model of the reader
+  let n_prog = ctx.n(1_500, 60_000);
+  for _ in 0..n_prog {
+    let (what, doc) = fitsx::header_program(&mut rng);
+    fitsx::compare_reader_fits(&mut rep, &mut orc, &doc, "header-program", &what);
+  }
   // FITS through child processes
   let scratch = std::env::var("VERIF_SCRATCH").unwrap_or_else(|_| "/tmp".to_string());
   let n_fits = ctx.n(700, 30_000);
@@ -568,6 +576,11 @@ pub fn run(ctx: &Ctx) -> Report {
     };
     let kind = if name == "mom" || name == "skymap" { name.as_str() } else { "fits" };
     k += 1;
+    if kind == "fits" && doc.len() <= 16_000 {
+      // the same document through from_fits_ivoa in-process, beside the byte-level model of the
+      // reader (Model/FitsCodec.v): verdict, error kind, decoded rows / cells
+      fitsx::compare_reader_fits(&mut rep, &mut orc, &doc, &name, &what);
+    }
     let (outcome, maxalloc) = run_child(kind, &doc, &scratch, k);
     rep.evaluations += 1;
     rep.count(&format!("totality:fits:{}", name));
